@@ -49,6 +49,7 @@ func main() {
 	tags := flag.String("tags", "", "build tags")
 	quiet := flag.Bool("quiet", false, "only print non-OK obligations")
 	variantsOnly := flag.String("variants", "", "evaluate the self-validation corpus of a property (or 'all') without judging /repo")
+	dumpsigs := flag.Bool("dumpsigs", false, "(maintenance) print sigs_table.go for the tree at -repo")
 	flag.Parse()
 	debug.SetGCPercent(400)
 	// the `go` driver is looked up through this process's PATH: make the checker independent of the caller's shell
@@ -63,6 +64,14 @@ func main() {
 
 	cfg := Config{GOOS: *goos, GOARCH: *goarch, Tags: *tags}
 	switch {
+	case *dumpsigs:
+		p, err := Load(*repo, cfg)
+		if err != nil {
+			fmt.Fprintln(os.Stderr, err)
+			os.Exit(1)
+		}
+		dumpSigs(p)
+		os.Exit(0)
 	case *selftest:
 		os.Exit(runSelfTest(*verif))
 	case *explain != "":
